@@ -331,7 +331,9 @@ class SETHI(AbstractOperation):
 
     def execute(self, vm):
         target, value = self.args
-        vm.store_register(target, (value << 8) + (vm.load_register(target) & 0x00FF))
+        vm.store_register(
+            target, ((value & 0xFF) << 8) + (vm.load_register(target) & 0x00FF)
+        )
         vm.pc += 1
 
 
